@@ -13,7 +13,6 @@ def classify(case):
 
 SPEC = dict(
     prop="C27",
-    disabled="under construction",
     gens=[dict(name="DesktopRegexes", cmd=["go", "run", "-C", "translators", ".", "desktopregexes"],
                what="the alternatives of isValidDesktopFileLine (wrappers/desktop.go), one anchored expression each")],
     drivers=[
